@@ -29,6 +29,9 @@ TRUSTED = [
     "Power ISA / PowerPC UISA manuals (the manuals are not in the sandbox; no second MIPS/PPC implementation validates them)",
     "IL semantics: lean/FalconModel/Exec.lean + Lift.lean (properties C04, C07 tie it to falcon's evaluator/executor)",
     "correspondence: harness/src/bin/c02.rs + harness/src/lift.rs + lean/Drivers/C02.lean (three-way run + syntactic IL comparison)",
+    "one lemma (FalconProofs/C02/PpcCarry.lean addc_eq: the manual's 33-bit carry against the lifter's unsigned comparison) is "
+    "discharged by bv_decide; its _native.bv_decide axioms appear under ppc_lift_correct; all other proofs use only propext, "
+    "Classical.choice, Quot.sound",
     "capstone's decoding is NOT trusted: the interpreters decode the raw word; a capstone/lifter operand mix-up shows as a disagreement",
 ]
 ASSUMPTIONS = [
@@ -171,11 +174,14 @@ REVIEWED_LAX = {"sync"}
 # filled in to match lean/FalconProofs/Props/C02.lean
 PROVED_A = [
     "mips/mipsel: addu subu and or xor nor (incl. move/negu) ; sll srl sra nop ; sllv srlv srav ; addiu andi ori xori ; lui ; "
-    "slt sltu slti sltiu ; lb lbu lh lhu lw ; sb sh sw -- lift_correct_single: all fields, all states",
+    "slt sltu slti sltiu ; movn movz ; mfhi mflo mthi mtlo ; mult multu ; lb lbu lh lhu lw ; sb sh sw -- lift_correct_single: "
+    "all fields, all states",
     "mips/mipsel: beq bne bgez bgtz blez bltz b j with any of the above in the delay slot -- lift_correct_pair",
+    "ppc: addi/li addis/lis add subf addze (Rc) mr nop rlwinm/slwi (Rc) srawi (Rc) cmpwi cmplwi lbz lwz lwzu stw stwu stmw "
+    "mflr mtlr mtctr b bl blr bctr -- ppc_lift_correct: all fields, all states (CR SO bits excepted: finding cr-so)",
 ]
 UNPROVED = [
-    "mips/mipsel (differential only): add addi sub, mult multu div divu madd maddu msub msubu mul, mfhi mflo mthi mtlo, movn movz, "
-    "clz clo, lwl lwr swl swr ll sc pref sync, teq syscall break rdhwr, jr jal jalr bal bgezal bltzal",
-    "ppc (differential only): every accepted mnemonic",
+    "mips/mipsel (differential only): add addi sub (trapping), div divu (zero-divisor finding), madd maddu msub msubu mul, "
+    "clz clo (loop graphs), lwl lwr swl swr ll sc pref sync, teq syscall break rdhwr, jr jal jalr bal bgezal bltzal (findings)",
+    "ppc (differential only): bdnzl (finding: nop), conditional bclr forms",
 ]
